@@ -58,7 +58,8 @@ type c06World struct {
 }
 
 var c06Prelude = []string{"sub:A:e1f1:L1lc:lc:d", "sub:A:e2f1:L2lc:lc:d", "sub:B:e1f1:L1lc:lc:d", "bind:A:e1f2:L1lc:lc:d", "bind:B:e1f1:L2lc:lc:d",
-	"lsub:1:A:1", "lbind:1:A:2", "lsub:1:B:1", "lsub:2:A:2"}
+	// client-side references of the local features towards the same entity numbers on both peers
+	"lsub:1:A:1", "lbind:1:A:2", "lsub:1:B:1", "lsub:2:A:2", "lbind:1:B:2", "lbind:2:A:1", "lbind:2:B:1", "lsub:2:B:2"}
 
 func newC06World() *c06World {
 	c := &c06World{rw: newRegWorld(true, false), tree: map[string]map[string]world.EntSpec{}}
